@@ -55,10 +55,13 @@ struct MEnt {
     at: (u64, u64),
     name: u64,
     name_c: (u64, u64),
+    spn: u64,
+    spn_c: (u64, u64),
     gid: Option<u64>,
     gid_c: (u64, u64),
     cls: u64,
     cls_c: (u64, u64),
+    src: bool,
 }
 
 type Gent = (u64, Vec<(u64, u64)>);
@@ -73,6 +76,7 @@ struct Hist {
     others: Intern<Uuid>,
     copies_seen: u64,
     copies_stripped: u64,
+    stale_spn: u64,
 }
 
 impl Hist {
@@ -209,10 +213,13 @@ async fn snapshot(qs: &QueryServer, hist: &mut Hist, base: Option<u64>, prev: &[
                 at: hist.cid(&at),
                 name: 0,
                 name_c: (0, 0),
+                spn: 0,
+                spn_c: (0, 0),
                 gid: None,
                 gid_c: (0, 0),
                 cls,
                 cls_c: hist.cid(&cof(Attribute::Class).expect("class cid")),
+                src: true,
             });
             continue;
         }
@@ -221,6 +228,15 @@ async fn snapshot(qs: &QueryServer, hist: &mut Hist, base: Option<u64>, prev: &[
             .and_then(|vs| vs.to_proto_string_single())
             .and_then(|s| hist.name_id(&s))
             .unwrap_or_else(|| panic!("tracked entry without a pool name: {:?}", e));
+        // the name the stored spn was generated from (it is a replicated attribute of its own)
+        let spn = e
+            .get_ava_set(Attribute::Spn)
+            .and_then(|vs| vs.to_proto_string_single())
+            .and_then(|s| s.strip_suffix("@example.com").and_then(|n| hist.name_id(n)))
+            .unwrap_or_else(|| panic!("tracked entry without a pool spn: {:?}", e));
+        if spn != name {
+            hist.stale_spn += 1;
+        }
         let gid = e.get_ava_set(Attribute::GidNumber).and_then(|vs| vs.to_proto_string_single()).map(|s| {
             let g: u64 = s.parse().expect("gid");
             hist.gid_id(g).unwrap_or(900_000 + g)
@@ -230,10 +246,13 @@ async fn snapshot(qs: &QueryServer, hist: &mut Hist, base: Option<u64>, prev: &[
             at: hist.cid(&at),
             name,
             name_c: hist.cid(&cof(Attribute::Name).expect("name cid")),
+            spn,
+            spn_c: hist.cid(&cof(Attribute::Spn).expect("spn cid")),
             gid,
             gid_c: cof(Attribute::GidNumber).map(|c| hist.cid(&c)).unwrap_or((0, 0)),
             cls,
             cls_c: hist.cid(&cof(Attribute::Class).expect("class cid")),
+            src: e.get_ava_set(Attribute::SourceUuid).is_some(),
         };
         if cls == 0 {
             gens.push(gen_of(hist, &uniq, id, e.as_ref()));
@@ -269,7 +288,7 @@ fn c_cid(c: (u64, u64)) -> String {
 fn c_ent(e: &MEnt) -> String {
     capp(
         "mkE",
-        &[cn(e.uuid), c_cid(e.at), cn(e.name), c_cid(e.name_c), copt(&e.gid, |g| cn(*g)), c_cid(e.gid_c), cn(e.cls), c_cid(e.cls_c)],
+        &[cn(e.uuid), c_cid(e.at), cn(e.name), c_cid(e.name_c), cn(e.spn), c_cid(e.spn_c), copt(&e.gid, |g| cn(*g)), c_cid(e.gid_c), cn(e.cls), c_cid(e.cls_c), cbool(e.src)],
     )
 }
 fn c_gent(g: &Gent) -> String {
@@ -277,9 +296,10 @@ fn c_gent(g: &Gent) -> String {
 }
 fn t_ent(e: &MEnt) -> String {
     format!(
-        "{}:{}{}{}@{}.{}",
+        "{}:{}{}{}{}@{}.{}",
         e.uuid,
         e.name,
+        if e.spn != e.name { format!("(spn{})", e.spn) } else { String::new() },
         e.gid.map(|g| format!("/g{}", g)).unwrap_or_default(),
         match e.cls { 0 => "", 1 => "(rec)", _ => "(CNF)" },
         e.at.0,
@@ -425,6 +445,7 @@ async fn run_history(g: &mut Group, h: u64, nrep: usize, n_rand: usize, rng: &mu
         others: Intern::new(),
         copies_seen: 0,
         copies_stripped: 0,
+        stale_spn: 0,
     };
     let mut last_w: Vec<u64> = vec![g.t; 3];
     let mut steps: Vec<String> = vec![];
@@ -570,6 +591,7 @@ async fn run_history(g: &mut Group, h: u64, nrep: usize, n_rand: usize, rng: &mu
     }
     sink.add_stat("conflict_copy_sightings", hist.copies_seen);
     sink.add_stat("conflict_copy_sightings_without_name", hist.copies_stripped);
+    sink.add_stat("entry_sightings_with_spn_not_from_name", hist.stale_spn);
     sink.add_stat("attr_conflicts", n_attr_cnf);
     sink.add_stat("uuid_conflict_copies", n_uuid_cnf);
     let nontrivial = if nrep == 1 { n_rej_uniq + n_rej_base > 0 && n_ok > 1 } else { n_repl > 0 && (n_attr_cnf + n_uuid_cnf > 0) && n_rej_uniq + n_rej_base > 0 };
